@@ -96,6 +96,8 @@ class VEvent:
 
 
 class Driver:
+    runaways = 0        # after a few runaway cases (a broken loop) the per-case budget shrinks
+
     def __init__(self, case):
         self.case = case
         self.log = []
@@ -121,7 +123,8 @@ class Driver:
             drv.ndisp += 1
             if drv.ndisp > MAXDISP:
                 drv.runaway = True
-            drv.check()
+            if drv.runaway:
+                return          # the next tick() ends the run; no more work, no more tracebacks
             nm = event.name
             k = {'started': 0, 'stopped': 1, 'generate_events': 2, 'exception': 3}.get(nm)
             if k is None and nm[:1] == 'e' and nm[1:].isdigit():
@@ -136,7 +139,8 @@ class Driver:
 
         def mk_plain(k, i, b):
             def fn(self, *args, **kwargs):
-                drv.check()
+                if drv.runaway:
+                    return
                 log.append([2, k, i])
                 drv.do_acts(b['a'])
                 drv.finish(b['r'])
@@ -144,7 +148,8 @@ class Driver:
 
         def mk_gen(k, i, b):
             def fn(self, *args, **kwargs):
-                drv.check()
+                if drv.runaway:
+                    return
                 g = drv.ngen
                 drv.ngen += 1
                 log.append([3, k, i, g])
@@ -152,7 +157,8 @@ class Driver:
 
             def gen(g):
                 for j, (acts, r) in enumerate(b['s']):
-                    drv.check()
+                    if drv.runaway:
+                        return
                     log.append([4, g, j])
                     drv.do_acts(acts)
                     if r[0] == 'y':
@@ -175,7 +181,7 @@ class Driver:
 
         def tick(*a, **kw):
             drv.ticks += 1
-            if drv.ticks > MAXTICKS or drv.runaway:
+            if drv.ticks > (MAXTICKS if Driver.runaways < 6 else 40) or drv.runaway:
                 drv.runaway = True
                 raise Runaway('too many ticks')
             log.append([8])
@@ -193,12 +199,9 @@ class Driver:
         self.serial += 1
         return ev
 
-    def check(self):
-        if self.runaway:
-            raise Runaway('runaway program')
-
     def do_stop(self, thr, code):
-        self.check()
+        if self.runaway:
+            return
         self.log.append([5, None if code is None else [code]])
         if thr:
             for kind, v in in_thread(lambda: self.app.stop(code)):
@@ -233,7 +236,7 @@ class Driver:
     # -- the idle wait
     def on_wait(self, timeout):
         self.waits += 1
-        if self.waits > MAXWAITS:
+        if self.waits > (MAXWAITS if Driver.runaways < 6 else 12):
             raise Runaway('too many waits')
         inf = not (timeout is not None and timeout < 1000)
         self.log.append([7, inf])
@@ -343,6 +346,8 @@ def run_case(case):
             cur.append(e[1])
         elif e[0] == 1:
             cur = None
+    if drv.runaway:
+        Driver.runaways += 1
     return {'log': drv.log, 'marks': drv.marks, 'sched': sched, 'runaway': drv.runaway}
 
 
@@ -509,6 +514,38 @@ class Gen:
         ops += [['flush'], ['len']]
         return {'h': sorted([k, v] for k, v in h.items() if v), 'ext': ext, 'ops': ops, 'place': place}
 
+    def late_chain(self):
+        """a generator that outlives stop() and keeps starting event chains during the fade-out / final ticks"""
+        r = self.rng
+        n = r.choice([2, 3, 4, 4])               # chain e1 -> e2 -> ... -> e<n>
+        h = {0: [{'t': 'p', 'a': [['f', 0, 0]], 'r': ['r']}]}
+        k_stop = r.choice([0, 0, 0, 1, 2])
+        thr = int(r.random() < 0.4)
+        # stop(code) with a code called by the generator itself kills it (SystemExit): mostly avoid that here
+        code = r.choice(CODES) if thr or r.random() < 0.2 else None
+        steps = []
+        for j in range(r.randint(5, 16)):
+            # nothing is fired up to the stop (else the main loop only ends once the generator is exhausted)
+            acts = [['f', int(r.random() < 0.2), 1]] if r.random() < 0.85 and (j > k_stop or r.random() < 0.15) else []
+            if j == k_stop:
+                acts.insert(r.randint(0, len(acts)), ['s', thr, code])
+            steps.append([acts, ['y']])
+        if r.random() < 0.3:
+            steps[-1][1] = r.choice([['r'], ['x', r.choice(CODES)], ['k'], ['e']])
+        h[10] = [{'t': 'g', 's': steps}]
+        for i in range(1, n):
+            h[10 + i] = [{'t': 'p', 'a': [['f', 0, i + 1]] + ([['f', 0, i + 1]] if r.random() < 0.2 else []), 'r': ['r']}]
+        if r.random() < 0.4:
+            h[10 + n] = [self.body(NUSER, p_exc=0.2)]
+        if r.random() < 0.3:
+            h[1] = [self.body(1, p_exc=0.1)]
+        cycles = r.choice([1, 2, 2])
+        ops = []
+        for _ in range(cycles):
+            ops += [['run'], ['len']]
+        ops += [['flush'], ['len']]
+        return {'h': sorted([k, v] for k, v in h.items() if v), 'ext': [], 'ops': ops, 'place': 'late-chain'}
+
     def manual(self):
         """the application-specific main loop: running without run(); stop() ticks inline"""
         r = self.rng
@@ -528,11 +565,12 @@ class C08(Prop):
     props_file = 'Props/C08.v'
     imports = ['Model.KLoop', 'Model.KLoopObs']
     quick_n = 300
-    thorough_n = 4000
+    thorough_n = 12000
     rule = ('random programs of scripted plain/generator handlers on started, stopped, exception and 5 user events '
             '(acyclic firing), with one deliberately placed stop site (started / mid-chain / generator step / second '
             'thread inside a handler / second thread while the loop idles / SystemExit / KeyboardInterrupt / inside the '
-            'stopped handler / none) and exit codes None,0,1,3,7,9; 1-3 run() cycles with stop() on the idle manager '
+            'stopped handler / none; 10 % late-chain cases: a generator outliving stop() that starts event chains of '
+            'length 2-4 in every fade-out tick) and exit codes None,0,1,3,7,9; 1-3 run() cycles with stop() on the idle manager '
             'in between; plus the manual main loop (stop() with inline ticks). non-trivial = a run() that dispatched '
             'a user event and was stopped by the program or the second thread')
     trusted_base = ['hand-written model Model/KLoop.v tied to /repo by this correspondence run (full log incl. ticks, '
@@ -550,7 +588,8 @@ class C08(Prop):
         g = Gen(rng)
         out = []
         for i in range(n):
-            c = g.manual() if rng.random() < 0.08 else g.case()
+            x = rng.random()
+            c = g.manual() if x < 0.08 else g.late_chain() if x < 0.18 else g.case()
             out.append(c)
             self.stats['place'][c['place']] = self.stats['place'].get(c['place'], 0) + 1
             self.stats['runs'] += sum(1 for o in c['ops'] if o[0] == 'run')
@@ -647,7 +686,7 @@ class C08(Prop):
 
     def search(self, rng, tier):
         g = Gen(rng)
-        return [g.case() for _ in range(1500)]
+        return [g.late_chain() if i % 4 == 0 else g.case() for i in range(1500)]
 
 
 def case_code(m, case, obs):
